@@ -113,8 +113,9 @@ func TestVerifC20Payload(t *testing.T) {
 		return a
 	}
 	type item struct {
-		shape  int
-		firing bool
+		shape   int
+		firing  bool
+		timeout bool // resolved because the end the server derived from resolve_timeout passed (nobody re-sent the alert)
 	}
 	var batches [][]item
 	var gen func(cur []item, used int)
@@ -129,8 +130,8 @@ func TestVerifC20Payload(t *testing.T) {
 			if used&(1<<s) != 0 {
 				continue
 			}
-			for _, f := range []bool{true, false} {
-				gen(append(cur, item{s, f}), used|1<<s)
+			for _, f := range []item{{s, true, false}, {s, false, false}, {s, false, true}} {
+				gen(append(cur, f), used|1<<s)
 			}
 		}
 	}
@@ -145,10 +146,15 @@ func TestVerifC20Payload(t *testing.T) {
 			var alerts []*types.Alert
 			var names []string
 			for _, it := range b {
-				alerts = append(alerts, mkAlert(c20Shapes[it.shape], it.firing))
+				al := mkAlert(c20Shapes[it.shape], it.firing)
+				al.Timeout = it.timeout
+				alerts = append(alerts, al)
 				st := "resolved"
 				if it.firing {
 					st = "firing"
+				}
+				if it.timeout {
+					st = "resolved(timed out)"
 				}
 				names = append(names, c20Shapes[it.shape].name+":"+st)
 			}
@@ -242,7 +248,7 @@ func TestVerifC20Payload(t *testing.T) {
 	}
 	R.Transitions = R.Executions
 	R.Exhaustive = true
-	R.Bound = fmt.Sprintf("%d ordered batches of 1..3 distinct alerts (5 label/annotation shapes x firing/resolved) x max_alerts {0,1,2}, real webhook notifier over loopback HTTP", len(batches))
+	R.Bound = fmt.Sprintf("%d ordered batches of 1..3 distinct alerts (5 label/annotation shapes x firing / resolved by an explicit end / resolved by the resolve_timeout end) x max_alerts {0,1,2}, real webhook notifier over loopback HTTP", len(batches))
 	R.Sample(map[string]any{"shapes": []string{"A{sev=crit,shared=1}", "B{sev=crit,shared=1,extra=x}", "C{sev=warn,shared=1}", "D{sev=crit,shared=2; no annotations}", "E{alertname only}"}})
 	R.Write()
 }
